@@ -303,8 +303,8 @@ def gen_md(ctx, rng, backend: str, name: str, singleton: bool = False) -> Dict[s
         if rng.random() < 0.3 and rows:
             libs.append(rng.choice(rows)["libs"][0])
         md["link_libraries"] = libs
-    if backend != "atlas" and rng.random() < 0.3:
-        md["element_pointer"] = False  # the default kind; `True` is the listed finding and stays out of the main stream
+    if backend != "atlas" and rng.random() < 0.45:
+        md["element_pointer"] = rng.random() < 0.5
     items = list(md.items())
     if rng.random() < 0.5:
         head, tail = items[:1], items[1:]
@@ -487,12 +487,12 @@ def judge_jobs(ctx, stream: str, cases: List[Dict[str, Any]], report: bool = Tru
 # ----------------------------------------------------------------------------------------- executed artefact (g++, mock event store)
 
 
-def declared_types(ctx, case) -> Dict[str, Tuple[str, Optional[str]]]:
-    """name -> (container type, element type | None) as DECLARED (built-in rows read from the source,
+def declared_types(ctx, case) -> Dict[str, Any]:
+    """name -> (container type, element type | None, elements are pointers) as DECLARED (built-in rows read from the source,
     then the metadata; of several declarations of a name the first written is in force)."""
-    t: Dict[str, Tuple[str, Optional[str]]] = {r["name"]: (r["container"], r["element"]) for r in ctx.c06_data["backends"][case["backend"]]["rows"]}
+    t: Dict[str, Any] = {r["name"]: (r["container"], r["element"], case["backend"] == "atlas") for r in ctx.c06_data["backends"][case["backend"]]["rows"]}
     for md in reversed(case["mds"]):
-        t[md["name"]] = (md["container_type"], md.get("element_type") if md.get("contains_collection") else None)
+        t[md["name"]] = (md["container_type"], md.get("element_type") if md.get("contains_collection") else None, bool(md.get("element_pointer", case["backend"] == "atlas")))
     return t
 
 
@@ -509,7 +509,7 @@ def exec_stream(ctx, cases: List[Dict[str, Any]], report: bool = True) -> List[D
         decl = declared_types(ctx, c)
         us = [u for u, _ in uses_of(c)]
         wanted = [[decl[u["name"]][0], u["args"][0]["s"]] for u in us]
-        types = sorted({decl[u["name"]] for u in us}, key=lambda x: (x[0], x[1] or ""))
+        types = sorted({decl[u["name"]] for u in us}, key=lambda x: (x[0], x[1] or "", x[2]))
         if any(("\n" in b or "|" in b or "\x1f" in b) for _, b in wanted):
             continue
         fails_list: List[List[str]] = [[]]
@@ -572,7 +572,7 @@ def md_value(k: str, flag: bool, backend: str) -> Any:
         "element_type": "my::Foo",
         "contains_collection": flag,
         "link_libraries": ["libA", "libB"],
-        "element_pointer": False,
+        "element_pointer": flag,
         "bogus": "x",
     }[k]
 
@@ -972,8 +972,7 @@ THEOREMS = ["FaxVerif.C06." + t for t in [
     "builtin_specs",
     "default_types",
     "documented_keys",
-    "whitelist_keys_read_partial",
-    "whitelist_keys_read_counterexample",
+    "whitelist_keys_read",
     "bank_substitution",
     "retrieval",
     "retrieval_typename_counterexample",
@@ -984,7 +983,7 @@ THEOREMS = ["FaxVerif.C06." + t for t in [
     "validate_iff_cms_partial",
     "validate_cms_singleton_counterexample",
     "validate_declares",
-    "element_pointer_counterexample",
+    "element_pointer_honoured",
     "backend_refused",
     "override",
     "call_shape",
@@ -993,12 +992,12 @@ THEOREMS = ["FaxVerif.C06." + t for t in [
     "job_includes",
     "run_spec_partial",
     "miniaod_tokens_distinct",
-    "run_spec_element_pointer_counterexample",
+    "run_spec_element_pointer",
 ]]
 
 RULE = (
     "jobs: a backend, 0-3 metadata declarations of collections (new names or names of built-ins, ATLAS also singletons, headers that overlap "
-    "with built-ins' headers, optional link libraries / element_pointer=False, shuffled key order), 0-2 Where clauses and a tuple Select of "
+    "with built-ins' headers, optional link libraries / element_pointer True or False, shuffled key order), 0-2 Where clauses and a tuple Select of "
     "1-5 items or a SelectMany, every item one or two collection calls (element method in a Select, Count, nested inside another collection's "
     "lambda, singleton method) with banks from a pool incl. quotes, backslash, tab, empty, non-ASCII, the words collection_name/result, the same "
     "collection and the same bank twice; 22% of the cases carry one fault (unknown key, missing required key, element_type/contains_collection "
@@ -1030,7 +1029,7 @@ ASSUMPTIONS = [
     "one MetaData dict per declaration with distinct keys; the order in which declarations reach process_metadata is func_adl's (outermost first)",
 ]
 LEVEL_TEXT = (
-    "Machine-checked proof (Lean 4, 28 theorems) about an executable model of the collection path (process_metadata branches, backend test, "
+    "Machine-checked proof (Lean 4, 27 theorems) about an executable model of the collection path (process_metadata branches, backend test, "
     "name table with override, get_collection, whole-word substitution of the bank, process_ast_node, include/library accumulation, name counter): "
     "for every backend, every list of metadata declarations, every list of collection calls with arbitrary bank strings and repetitions and every "
     "position of the name counters, run_spec_partial proves RunSpec: refusal exactly for malformed/foreign declarations and ill-shaped calls, "
@@ -1042,7 +1041,7 @@ LEVEL_TEXT = (
 )
 LEVEL_NOTE = (
     "Partial where the code violates the property: run_spec_partial excludes (decidable hypotheses, each with a counterexample theorem and a listed "
-    "finding replayed every run) CMS element_pointer=True (accepted, ignored), CMS singleton declarations (KeyError), container types containing the "
+    "finding replayed every run) CMS singleton declarations (KeyError), container types containing the "
     "word collection_name (hit by the substitution); and collection names ending in a digit (unique_name collision, C02/C11). "
     "Trusted: Lean kernel (axioms audited: propext, Classical.choice, Quot.sound), the hand model's agreement with the Python (differential execution, "
     "not proved), the translator, the harness, the text reader, the consumer model; where in the per-event code the translator places the block "
